@@ -313,7 +313,7 @@ class SymInt:
         return _eng().concretize(self).bit_length()
 
     def to_bytes(self, length=1, byteorder="big", *, signed=False):
-        length = length if isinstance(length, int) else _eng().concretize(length)
+        length = alloc_guard(length)
         if signed:
             ok = (self >= -(1 << (8 * length - 1))) & (self < (1 << (8 * length - 1))) if length else (self == 0)
         else:
@@ -322,12 +322,43 @@ class SymInt:
             ok = self < (1 << (8 * length))
         if not (ok if isinstance(ok, bool) else bool(ok)):
             raise OverflowError("int too big to convert")
-        W = max(self.w, 8 * length + 1)
+        # octets above the value's own width are the sign extension: constants when the sign is known
+        own = min(length, (self.w + 7) // 8 + 1)
+        W = max(self.w, 8 * own + 1)
         t = resize(self.t, W)
-        items = [SymInt.mk(z3.ZeroExt(1, z3.Extract(8 * i + 7, 8 * i, t)), 0, 255) for i in range(length)]
+        items = [SymInt.mk(z3.ZeroExt(1, z3.Extract(8 * i + 7, 8 * i, t)), 0, 255) for i in range(own)]
+        if length > own:
+            if self.lo >= 0:
+                fill = 0
+            elif self.hi < 0:
+                fill = 255
+            else:
+                fill = SymInt.mk(z3.If(t < 0, z3.BitVecVal(255, 9), z3.BitVecVal(0, 9)), 0, 255)
+            items += [fill] * (length - own)
         if byteorder == "big":
             items.reverse()
         return SymBytes(items).norm()
+
+
+ALLOC_CAP = 1 << 20  # native mode: a peak allocation above 1 MiB counts as a work-budget overrun
+SYM_ALLOC_CAP = 1 << 16  # symbolic mode: a single allocation above 64 KiB (one RPC fragment) whose size comes from the input is an overrun
+
+
+def alloc_guard(n):
+    """concretise an allocation size; sizes above SYM_ALLOC_CAP are a budget overrun (work not proportional to the input).
+    The witness is steered into (ALLOC_CAP, 2*ALLOC_CAP] when possible so that the native replay can observe it cheaply."""
+    from .engine import BudgetExceeded
+
+    e = _eng()
+    if isinstance(n, SymInt):
+        if n.hi > SYM_ALLOC_CAP and bool(n > SYM_ALLOC_CAP):
+            c = (n > ALLOC_CAP) & (n <= 2 * ALLOC_CAP)
+            e.prefer(c.t if isinstance(c, SymBool) else None)
+            raise BudgetExceeded(f"allocation of more than {SYM_ALLOC_CAP} bytes requested (size taken from the input)")
+        n = e.concretize(n)
+    if n > SYM_ALLOC_CAP:
+        raise BudgetExceeded(f"allocation of {n} bytes requested")
+    return n
 
 
 def _sym_shl(a, k):
@@ -496,7 +527,7 @@ class SymBytes(SymSeq):
         return SymBytes(seq_items(o) + self._items).norm()
 
     def __mul__(self, k):
-        k = k if isinstance(k, int) else _eng().concretize(k)
+        k = alloc_guard(k)
         return SymBytes(self._items * k).norm()
 
     def decode(self, enc="utf-8", errors="strict"):
@@ -507,7 +538,17 @@ class SymBytes(SymSeq):
             return utf16le_decode(self._items)
         return self.realize().decode(enc, errors)
 
-    def replace(self, a, b):
+    def replace(self, a, b, count=-1):
+        a, b = bytes(a), bytes(b)
+        if len(a) == 1 and count == -1:
+            # single-byte pattern: one fork per symbolic octet (is it the pattern?) instead of one per value
+            out = []
+            for x in self._items:
+                if (x == a[0]) if isinstance(x, int) else bool(x == a[0]):
+                    out.extend(b)
+                else:
+                    out.append(x)
+            return SymBytes(out).norm()
         return self.realize().replace(a, b)
 
 
@@ -744,9 +785,45 @@ class SymStr:
     def to_int(self):
         if len(self.parts) == 1 and not isinstance(self.parts[0], str) and self.parts[0][0] == "dec":
             return self.parts[0][1]
+        if all(isinstance(p, str) or p[0] == "chr" for p in self.parts):
+            # symbolic characters: fork over their values (int() accepts digits of many scripts, signs, blanks, underscores: CPython decides)
+            return int(self.realize())
         from .engine import Unsupported
 
         raise Unsupported(f"int() of structured string {self!r}")
+
+    def _fields(self):
+        """[field | separator ...]: separators are maximal runs of non-digit literal text (str), numeric fields are ("lit", digits) or
+        ("dec", SymInt); None if a field mixes literal digits with a decimal rendering or contains a symbolic character"""
+        out = []
+        cur = None  # current numeric field
+        for p in self.parts:
+            if isinstance(p, str):
+                for ch in p:
+                    if ch.isdigit() and ch.isascii():
+                        if cur is None:
+                            cur = ("lit", ch)
+                        elif cur[0] == "lit":
+                            cur = ("lit", cur[1] + ch)
+                        else:
+                            return None
+                    else:
+                        if cur is not None:
+                            out.append(cur)
+                            cur = None
+                        if out and isinstance(out[-1], str):
+                            out[-1] += ch
+                        else:
+                            out.append(ch)
+            elif p[0] == "dec":
+                if cur is not None:
+                    return None
+                cur = ("dec", p[1])
+            else:
+                return None
+        if cur is not None:
+            out.append(cur)
+        return out
 
     def _atoms(self):
         out = []
@@ -776,24 +853,37 @@ class SymStr:
                 if r is not True:
                     conj.append(r.t)
         else:
-            if len(a) != len(b):
-                from .engine import Unsupported
+            from .engine import Unsupported
 
+            fa, fb = self._fields(), o._fields()
+            if fa is None or fb is None:
                 raise Unsupported(f"comparison of differently structured strings {self!r} / {o!r}")
-            for p, q in zip(a, b):
-                if isinstance(p, str) and isinstance(q, str):
+            if len(fa) != len(fb):
+                return False
+            for p, q in zip(fa, fb):
+                if isinstance(p, str) or isinstance(q, str):
+                    # separators (non-digit text) must agree exactly; a numeric field never equals a separator
                     if p != q:
                         return False
-                elif not isinstance(p, str) and not isinstance(q, str) and p[0] == q[0]:
-                    r = p[1] == q[1]
-                    if r is False:
+                    continue
+                (kp, vp), (kq, vq) = p, q
+                if kp == "lit" and kq == "lit":
+                    if vp != vq:
                         return False
-                    if r is not True:
-                        conj.append(r.t)
+                    continue
+                if kp == "lit":
+                    kp, vp, kq, vq = kq, vq, kp, vp
+                if kq == "lit":
+                    # decimal rendering vs literal digits: equal iff the literal is the canonical rendering of the same value
+                    if vq == "" or (len(vq) > 1 and vq[0] == "0"):
+                        return False
+                    r = vp == int(vq)
                 else:
-                    from .engine import Unsupported
-
-                    raise Unsupported(f"comparison of differently structured strings {self!r} / {o!r}")
+                    r = vp == vq
+                if r is False:
+                    return False
+                if r is not True:
+                    conj.append(r.t)
         if not conj:
             return True
         return mkbool(z3.And(*conj))
